@@ -113,7 +113,7 @@ def arith_items(rng, n):
             cx = cx + codes(fxm) + codes(fxm); cy = cy + codes(fym) + codes(fym)
             items.append((op, fxm, cx, (3,), fym, cy, (3,), rng.choice(['operator', 'func']), {}))
         else:
-            cfg = {'_build': 'indexed'} if rng.random() < 0.35 else {}
+            cfg = {'_build': rng.choice(['indexed', 'iterated'])} if rng.random() < 0.45 else {}
             if not cfg and rng.random() < 0.3:
                 # both operands configured with a larger n_word_max (the width at which the arithmetic must leave int64 does not depend on it)
                 m = rng.choice([65, 128, 256]); cfg = {'n_word_max': m, '_ycfg': {'n_word_max': m}}
